@@ -13,7 +13,7 @@ func init() {
 	core.Register(&core.Property{
 		ID:    "C04",
 		Level: "model_checking",
-		Rule: "universe = for each list kind (call arguments, composite-literal elements plain and key:value, named/unnamed parameters, results, struct fields, interface methods, statements in a function body / if body / case clause, for-header) every pattern over {literal a, literal b, metavariable x, x again, elision} of bounded length with 1..3 non-adjacent elisions x every list over {a,b,c} of bounded length; '+' side in the two promised layouts: (i) every elision on a context line with one explicit element replaced, (ii) exactly one elision per side ('-' above '+' and '+' above '-'). " +
+		Rule: "universe = for each list kind (call arguments, composite-literal elements plain and key:value, named/unnamed parameters, results, struct fields, interface methods, statements in a function body / if body / case clause, for-header) every pattern over {literal a, literal b, metavariable x, x again, elision} of bounded length with 1..3 non-adjacent elisions x every list over {a,b,c} of bounded length; '+' side in the two promised layouts: (i) every elision on a context line with one explicit element replaced, (ii) exactly one elision per side ('-' above '+' and '+' above '-'), (iii) the whole list with all its elisions on one unchanged context line and the change in a sibling statement. " +
 			"The model decides by full backtracking whether some choice of runs matches, picks the lexicographically smallest run vector and predicts the output; every case is a model trace replayed against patch.Parse+Apply. non-trivial = the model says the pattern matches the list",
 		Assumptions: []string{"adjacent elisions (`..., ...`) are not generated: the statement speaks of elisions separated by explicit elements"},
 		Bounds: func(tier string) map[string]any {
@@ -58,9 +58,35 @@ type c04Kind struct {
 	oneLine           bool   // supports the single-line layout (ii)
 	noCtx             bool   // the list cannot be written with one element per line (return / case / assignment lists)
 	minLen            int    // shortest list the syntax allows
+	// inline layout (iii): the whole list on one unchanged context line, the change is in a sibling
+	// statement. inlineOpen/inlineClose wrap the one-line list in the pattern and in the file; inlineKind is
+	// the model kind of that pattern (empty: the kind has no such layout).
+	inlineKind, inlineOpen, inlineClose, inlineFileOpen, inlineFileEnd string
 }
 
 func c04Kinds() []c04Kind {
+	ks := c04KindsBase()
+	for i := range ks {
+		k := &ks[i]
+		switch k.id {
+		case "args", "composite", "composite-kv", "type-args", "funclit-params":
+			k.inlineKind = "stmts"
+			k.inlineOpen, k.inlineClose = "_ = "+k.open, k.close
+			k.inlineFileOpen, k.inlineFileEnd = "package p\n\nfunc _() {\n\tpre()\n\t_ = "+k.open, k.close+"\n\ttail()\n}\n"
+		case "params-named", "params-unnamed":
+			k.inlineKind = "decl"
+			k.inlineOpen, k.inlineClose = "func f(", ") {"
+			k.inlineFileOpen, k.inlineFileEnd = "package p\n\nfunc f(", ") {\n\ttail()\n}\n"
+		case "results":
+			k.inlineKind = "decl"
+			k.inlineOpen, k.inlineClose = "func f() (", ") {"
+			k.inlineFileOpen, k.inlineFileEnd = "package p\n\nfunc f() (", ") {\n\ttail()\n}\n"
+		}
+	}
+	return ks
+}
+
+func c04KindsBase() []c04Kind {
 	return []c04Kind{
 		{id: "args", kind: "expr", lit: map[string]string{"a": "a", "b": "b.c", "c": "g(1)"}, mvar: "x", meta: model.MetaVar{Name: "x", Kind: "expression"},
 			dots: "DOTS_%d", sep: ", ", open: "f(", close: ")", openPlus: "mark(", eol: ",", mark: "mark", markX: "mark(x)", oneLine: true,
@@ -178,6 +204,9 @@ func c04Gen(tier string, emit func(any)) {
 					if strings.HasPrefix(k.id, "stmts") || k.id == "struct-fields" || k.id == "iface-methods" {
 						file = k.fileOpen + "\n" + strings.Join(els, "\n") + "\n" + k.fileEnd
 					}
+					if ch.layout == "ctx-inline" {
+						file = k.inlineFileOpen + strings.Join(els, sep) + k.inlineFileEnd
+					}
 					emit(&MCase{Change: ch.c, File: file, Tag: fmt.Sprintf("%s/%s/%s", k.id, ch.layout, strings.Join(pat, ""))})
 				}
 			}
@@ -270,6 +299,22 @@ func c04Changes(k c04Kind, pat []string) []c04Change {
 			lines = append(lines, " "+k.close)
 			out = append(out, c04Change{&model.Change{Meta: meta, Kind: k.kind, Lines: model.L(lines...)}, variant})
 		}
+	}
+	// layout (iii): the whole list, with all its elisions, on ONE unchanged context line; a sibling statement changes
+	if k.inlineKind != "" {
+		var els []string
+		di := 0
+		for _, e := range pat {
+			if e == "D" {
+				di++
+			}
+			els = append(els, elem(e, di))
+		}
+		lines := []string{" " + k.inlineOpen + strings.Join(els, k.sep) + k.inlineClose, "-tail()", "+mark()"}
+		if k.inlineKind == "decl" {
+			lines = append(lines, " }")
+		}
+		out = append(out, c04Change{&model.Change{Meta: meta, Kind: k.inlineKind, Lines: model.L(lines...)}, "ctx-inline"})
 	}
 	// layout (ii): exactly one elision on each side, single line, both orders
 	nd := 0
